@@ -138,6 +138,14 @@ def body(ctx):
     rejects, stats, errors = vf.tlc_validate("T_Alloc.tla", files)
     if errors:
         raise vf.InfraError("TLC failed on allocator history %s rc=%s\n%s" % errors[0])
+    def corrupt(e, rng):   # binding probe: a returned pointer one byte off its alignment, or a request answered for another size class
+        if e.get("kind") != "allocate" or not isinstance(e.get("r"), list) or not any(e["r"][:8]):
+            return None
+        c = dict(e)
+        c["r"] = list(e["r"])
+        c["r"][0] ^= 1 << rng.randrange(3)
+        return c
+    lanes.stateful_probe(ctx, "T_Alloc.tla", traces[0], "c18hist", corrupt)
     fam = ctx.cov["trace_families"].setdefault("c18hist", dict(events=0, accepted=0, rejected=0))
     for s in stats:
         for k in fam:
